@@ -347,6 +347,11 @@ func (p *policy) allocatePool(container cache.Container, poolHint string) (Grant
 		offer *libmem.Offer
 	)
 
+	if _, ok := container.GetPod(); !ok {
+		return nil, policyError("can't allocate resources for %s: its pod is not in the cache",
+			container.PrettyName())
+	}
+
 	request := newRequest(container, p.memAllocator.Masks().AvailableTypes())
 
 	if p.root.FreeSupply().ReservedCPUs().IsEmpty() && request.CPUType() == cpuReserved {
